@@ -32,9 +32,14 @@ LEVEL_TEXT = ("Proof (Coq, no axioms) about the token-level model of delphin/cod
               "alignment, constant, type, properties) and every link exactly, minus properties/alignments when "
               "suppressed, whatever follows the closing brace. The models are tied to the code by kernel-checked "
               "correspondence on the real lexer's tokens; text-level round trips, stability, indentation, lists and "
-              "the DMRX, DMRS-JSON and DMRS-PENMAN codecs are checked on the implementation by the oracle.")
-LEVEL_NOTE = ("Partial: lexer regular expressions and white space are oracles; DMRX and DMRS-PENMAN are oracle-checked, "
-              "not modelled; DMRS-JSON is modelled at the level of the JSON value (json.dumps/loads are oracles).")
+              "the DMRX, DMRS-JSON and DMRS-PENMAN codecs are checked on the implementation by the oracle. DMRS-JSON and DMRX "
+              "are additionally modelled at the level of the JSON value / the XML element tree, with decode-of-encode theorems "
+              "(C02_json_from_to_dict, C02_dmrx_from_to_element) and kernel-checked correspondence with to_dict/from_dict and "
+              "_encode_dmrs/_decode_dmrs.")
+LEVEL_NOTE = ("Partial: lexer regular expressions and white space are oracles; DMRS-PENMAN is oracle-checked, not modelled; "
+              "DMRS-JSON is modelled at the level of the JSON value (json.dumps/loads are oracles) and DMRX at the level of the "
+              "element tree (ElementTree's serialiser and parser are oracles; predicate.split/create are oracles whose assumed "
+              "behaviour - create undoes split - is a hypothesis of the theorem and holds of the tables of every case).")
 TECHNIQUE = "Coq proof (token-level decode-of-encode) + kernel-checked correspondence + round-trip oracle on all four codecs"
 DESIGN_REF = "DESIGN.md section 6, C02"
 
@@ -157,6 +162,49 @@ def dmrs_obs(x):
             "lnk": c01.lnk_obs(x.lnk), "surface": x.surface, "identifier": x.identifier}
 
 
+def _xml_obs(e):
+    return {"tag": e.tag, "attrs": [[k, v] for k, v in e.attrib.items()], "text": e.text,
+            "kids": [_xml_obs(k) for k in e]}
+
+
+def _dmrx_obs(x, c):
+    """DMRX at the level of the element tree, with the predicate oracles as tables; None when the
+    structure is outside the modelled class (predicates not in normal form, non-ASCII properties)"""
+    from delphin import predicate
+    from delphin.codecs import dmrx
+    preds = []
+    for n in c["d"]["nodes"]:
+        if predicate.normalize(n["pred"]) != n["pred"]:
+            return None
+        if any(ord(ch) > 127 for kv in n["props"] for ch in kv[0] + kv[1]) or \
+                (n["type"] and any(ord(ch) > 127 for ch in n["type"])):
+            return None
+        if n["pred"] not in preds:
+            preds.append(n["pred"])
+    splits = []
+    for pr in preds:
+        if predicate.is_surface(pr):
+            lemma, pos, sense = predicate.split(pr)
+            splits.append([pr, [lemma, pos, sense]])
+        else:
+            splits.append([pr, None])
+    elem = dmrx._encode_dmrs(x, c["p"], c["l"])
+    creates = []
+    for e in elem.iter("realpred"):
+        key = [e.get("lemma"), e.get("pos"), e.get("sense")]
+        if key[0] is None or key[1] is None:
+            return None
+        if not any(k[:3] == key for k in creates):
+            creates.append(key + [predicate.normalize(predicate.create(*key))])
+    return {"splits": splits, "creates": creates, "elem": _xml_obs(elem),
+            "back": dmrs_obs(dmrx._decode_dmrs(elem))}
+
+
+def c_xml(o):
+    return "(XE %s %s %s %s)" % (cstr(o["tag"]), c01.c_pairs(o["attrs"]), copt(o["text"], cstr),
+                                 clist(o["kids"], c_xml))
+
+
 def lex(text):
     from delphin.codecs import simpledmrs as S
     from delphin.lnk import Lnk
@@ -242,6 +290,9 @@ def observe(c):
             from delphin.codecs import dmrsjson
             d = dmrsjson.to_dict(x, properties=c["p"], lnk=c["l"])
             o["json"] = {"d": d, "back": dmrs_obs(dmrsjson.from_dict(d))}
+            xo = _dmrx_obs(x, c)
+            if xo is not None:
+                o["xml"] = xo
         return o
     if c["k"] == "doc":
         text = S.dumps([build(d) for d in c["ds"]], properties=c["p"], lnk=c["l"], indent=c["indent"])
@@ -478,5 +529,13 @@ def coq_case(c, o):
         if "json" in o:
             out.append(app("DJson", cbool(c["p"]), cbool(c["l"]), c_dmrs(c["d"]), c01.c_jv(o["json"]["d"]),
                            c_dmrs(o["json"]["back"])))
+        if "xml" in o:
+            xo = o["xml"]
+            out.append(app("DXml", cbool(c["p"]), cbool(c["l"]), c_dmrs(c["d"]),
+                           clist(xo["splits"], lambda e: "(%s, %s)" % (cstr(e[0]), copt(
+                               e[1], lambda t: "(%s, %s, %s)" % (cstr(t[0]), cstr(t[1]), copt(t[2], cstr))))),
+                           clist(xo["creates"], lambda e: "(%s, %s, %s, %s)" % (
+                               cstr(e[0]), cstr(e[1]), copt(e[2], cstr), cstr(e[3]))),
+                           c_xml(xo["elem"]), c_dmrs(xo["back"])))
         return out
     return dec
